@@ -473,7 +473,13 @@ impl Tbl {
             t.foreign_key(&mut fk.statement(&self.name));
         }
         for (c, k) in &self.checks {
-            t.check(Expr::col(a(c)).gt(*k));
+            if *k >= 100 {
+                // compound check: two OR groups joined by AND (its text starts and ends with a parenthesis)
+                let col = || Expr::col(a(c));
+                t.check(col().gt(*k - 100).or(col().lt(0)).and(col().lt(1000).or(col().eq(*k))));
+            } else {
+                t.check(Expr::col(a(c)).gt(*k));
+            }
         }
         if let Some(c) = &self.comment {
             t.comment(c.as_str());
